@@ -31,6 +31,12 @@ TEXT = {
               'and that a cumulative ACK leaves nothing at or below it (independent of earlier ACKs, via the log-above-high-water invariant).',
               COMMON_NOTE + ' Dispatch across links (arrival link first, then one other holder) is covered by the shell unit when built.',
               'deductive verification (Verus) of extracted real functions: representation invariant + exact set-valued postconditions', 'DESIGN.md 8 C02'),
+    'C03': _t('Verus proves for ANY number of links, both modes and every configuration: the stall gate never excludes the last usable link (usable = connected, registered, not timed out); the classic selector returns a link whenever a connected eligible link exists; '
+              'the enhanced selector returns a link whenever a connected eligible link exists even with the in-flight cap, weak and loss gates engaged (the cap hard-skip applies only while an unconstrained connected link exists); '
+              'and select_connection_idx composes them: a usable uplink exists => Some. The one float fact needed (the score of a connected candidate exceeds the -1.0 start score) is a lemma assumed in Verus and proved bit-precisely by Kani, '
+              'together with the ranges of the quality multiplier and the soft-cap factor on the real functions.',
+              COMMON_NOTE + ' A genuine defect found by this check (a link that lost its registration counted as the healthy alternative -> blackout) was repaired in /repo (fix: commit 6932b94).',
+              'deductive verification (Verus) with existential postconditions + Kani float-lemma table', 'DESIGN.md 8 C03'),
     'C04': _t('Verus proves for any number of links, both modes, every configuration and packet kind: both selectors (incl. the hysteresis return) and select_connection_idx return only an uplink that is schedulable, '
               'not timed out and not stall-gated on the post-selection state; select_best_quality_idx never returns a registering, disconnected or stall-gated link; and at the single call site that routes stream data '
               '(handle_srt_packet -> forward_via_connection, after the priority override) the chosen uplink is eligible. Duplicate probes are confined to gated links by the frame of send_stall_probes.',
@@ -66,6 +72,10 @@ TEXT = {
               'and in classic mode handle_srt_packet routes every packet kind (retransmit-flagged, inside a critical window) to the scheduler\'s choice.',
               COMMON_NOTE + ' A genuine defect found by this check (quality override applied in classic mode) was repaired in /repo (fix: commit 49c1b48). "No time-based recovery in classic" is a syntactic audit of the single call site.',
               'deductive verification (Verus): argmax-first postcondition with loop invariant, exact-delta window contracts, tagged routing assertion', 'DESIGN.md 8 C10'),
+    'C11': _t('Verus proves on the real enhanced selector (any number of links): the result is always a scored candidate (eligible, connected, not over its cap while an unconstrained link exists); the score is exactly base x phase weight (0.8 warming / 1.0) x quality x soft cap x gate (0.02 for weak or loss-degraded while an unconstrained link exists, else 1.0); '
+              'the previous link is left only if it was skipped or the winner is not below 1.10 x its score. Kani proves on the real functions, for every link state: quality multiplier in [0.35, 1.1x1.03], soft-cap factor in [0.1, 1], in-flight cap >= 1 and None iff no target.',
+              COMMON_NOTE + ' Not covered: "re-running selection on an unchanged state returns the same uplink" is only partially covered (the per-link updates are exact functions of the state; no two-run proof).',
+              'deductive verification (Verus) with tagged assertions inside the loop + Kani complete harnesses for the float factors', 'DESIGN.md 8 C11'),
     'C12': _t('Verus proves for any number of links, both modes, every configuration: select_connection_idx and everything it calls (stall gate, pull and latch updates, quality cache refresh, both selectors) '
               'leave every field outside {stall flags/latches/counters, conn_timeout_ms, quality_cache} of every link unchanged (frame predicate generated from the struct definition, so new fields are in the frame by default), '
               'and with the guard off every flag and latch is cleared.',
@@ -75,6 +85,11 @@ TEXT = {
               'effective window = clamp(4*sRTT,1000,ceiling) with ceiling winning below the floor; rising edges counted exactly.',
               COMMON_NOTE + ' Float->int conversion of the smoothed RTT is uninterpreted in Verus; Kani harness covers the formula bit-precisely when built.',
               'deductive verification (Verus) of extracted real functions against transition contracts', 'DESIGN.md 8 C13'),
+    'C14': _t('Verus proves: a keepalive is due exactly when the link is connected and none was sent or the last one is >= 1000 ms old; keepalive_packet stamps the send time, carries it as the timestamp, its telemetry equals the link state, and arms an RTT probe only when none is outstanding; '
+              'an RTT sample is taken only from an echo received while a probe is outstanding, only with a parsable timestamp and 0 < RTT <= 10000 ms, and every echo consumes the probe. Kani proves on the real code: the frame is 38 bytes, its first 10 bytes are the standard keepalive, '
+              'it decodes back to the values it was built from, and the smoothed RTT is never negative (hence never NaN) for every filter state.',
+              COMMON_NOTE + ' Out of reach: the cadence inside the real housekeeping loop (two housekeeping periods) and "never non-finite" (Kalman stability over unbounded histories).',
+              'deductive verification (Verus) + Kani complete harnesses on the real builders/decoders', 'DESIGN.md 8 C14'),
     'C16': _t('Kani proves on the real LinkCongestionState (built through a cfg-gated constructor) for EVERY pre-state satisfying wf, every observed rate and every clock value, loop-free (complete, no unwinding bound): '
               'target in [100 kbit/s, 200 Mbit/s], floor until an RTT sample exists, lowered only in BackingOff or on entry to Drain, wf inductive; loss latch enters only after ewma > 0.55 held 4 s, clears only < 0.25. '
               'One known finding (re-seed at the floor) is isolated in its own obligation.',
